@@ -19,18 +19,23 @@ fn error_bounds<const B: Word>(
         if f.precision() == 0 {
             (FBig::ZERO, FBig::ZERO, true, true)
         } else {
-            (FBig::ZERO, f.ulp(), true, false)
+            match f.repr().sign() {
+                Sign::Positive => (FBig::ZERO, f.ulp(), true, false),
+                Sign::Negative => (FBig::ZERO, ulp_towards_zero(f), true, false),
+            }
         }
         /*@ proof {
             if f.context.precision != 0 {
                 let (b, sig, exp, p) = (B as int, f.repr.significand.v(), f.repr.exponent as int, f.context.precision as int);
                 let d = ndigits(b, sig) as int;
+                let pw = eb_pow(sig);
+                let g = eb_g(b, sig);
                 let m = sig * ipow(b, (p - d) as nat);
                 lemma_grid_sig(b, sig, (p - d) as nat);
-                lemma_half_units(b, exp + d - p);
-                lemma_eb_table(Mode::Down, m);
-                let t = eb_table(Mode::Down, m);
-                assert(eb_exact(Mode::Down, m, t.0, t.1, ret.2, ret.3));
+                lemma_half_units(b, exp + d - p, pw);
+                lemma_eb_table(Mode::Down, m, g);
+                let t = eb_table(Mode::Down, m, g);
+                assert(eb_exact(Mode::Down, m, g, t.0, t.1, ret.2, ret.3));
             }
         } @*/
     }
